@@ -163,6 +163,42 @@ def test_expr(node):
     return None
 
 
+def sorted_listing_generator(ctx, fn, call):
+    """`call` invokes a package generator that walks `sorted(os.listdir(P))` (default ordering, no filter) for a parameter P and
+    yields once per entry - the name itself, or a tuple that carries the name: (argument bound to P, index of the name in the
+    yielded tuple | None if the name is yielded bare).  None if the call is not of that kind."""
+    if not isinstance(call, ast.Call):
+        return None
+    tg = targets_of(ctx, fn, call)
+    if len(tg) != 1 or not tg[0].is_generator:
+        return None
+    G = tg[0]
+    loops = [n for n in own_nodes(G.node) if isinstance(n, ast.For)]
+    yields = [n for n in own_nodes(G.node) if isinstance(n, (ast.Yield, ast.YieldFrom))]
+    if len(loops) != 1 or len(yields) != 1 or not isinstance(yields[0], ast.Yield) or yields[0].value is None or not isinstance(loops[0].target, ast.Name):
+        return None
+    l, y = loops[0], yields[0]
+    it = l.iter
+    if not (isinstance(it, ast.Call) and is_ext_call(ctx, it, G, ("builtins.sorted",)) and not it.keywords and len(it.args) == 1 and isinstance(it.args[0], ast.Call)
+            and is_ext_call(ctx, it.args[0], G, ("os.listdir",)) and it.args[0].args and isinstance(it.args[0].args[0], ast.Name)):
+        return None
+    P = it.args[0].args[0].id
+    # the yield is a plain statement of the loop body (no filter, nothing skipped)
+    if not any(isinstance(st, ast.Expr) and st.value is y for st in l.body) or any(isinstance(x, (ast.Continue, ast.Break, ast.Return)) for st in l.body for x in ast.walk(st)):
+        return None
+    v = y.value
+    if isinstance(v, ast.Name) and v.id == l.target.id:
+        pos = None
+    elif isinstance(v, ast.Tuple) and any(isinstance(e, ast.Name) and e.id == l.target.id for e in v.elts):
+        pos = [i for i, e in enumerate(v.elts) if isinstance(e, ast.Name) and e.id == l.target.id][0]
+    else:
+        return None
+    bound = ctx.res.bind_args(G, call, G.cls is not None and not G.is_static)
+    if P not in bound or not isinstance(bound[P], ast.AST):
+        return None
+    return bound[P], pos
+
+
 def branch_when(node, atom):
     """Edge label ('true'/'false') taken at test node when atoms evaluate per `atom`; None if undetermined."""
     t = test_expr(node)
